@@ -15,6 +15,10 @@ import random
 from harness.core import MachineryError
 
 
+# short TLC runs (a few thousand records) are dominated by JVM start-up and JIT warm-up
+FAST_JVM = {"JAVA_TOOL_OPTIONS": "-XX:ParallelGCThreads=2 -XX:TieredStopAtLevel=1 -XX:CICompilerCount=1"}
+
+
 def points_per_cell(chk, quick, thorough):
     return thorough if chk.thorough() else quick
 
@@ -34,7 +38,7 @@ def plan(chk, check, J):
         "EkoreLawsPlan.cfg",
         workers=1,
         label=f"plan of {check} (every cell an initial state, per-cell decidability)",
-        env={"EKL_J": J, "EKL_CHECK": check, "EKL_PLAN_FILE": str(pf)},
+        env={"EKL_J": J, "EKL_CHECK": check, "EKL_PLAN_FILE": str(pf), **FAST_JVM},
     )
     if r.violated or not r.completed:
         raise MachineryError(f"EkoreLawsPlan failed for {check}: {r.violated} {r.out[-1500:]}")
@@ -91,7 +95,7 @@ def validate(chk, check, J, recs, label, cfg="EkoreLawsTrace.cfg", account=True)
         workers=1,
         trace={"check": check, "recs": recs},
         label=label,
-        env={"EKL_J": J},
+        env={"EKL_J": J, **FAST_JVM},
     )
     if r.violated or not r.completed:
         raise MachineryError(f"EkoreLawsTrace not accepted ({label}): {r.out[-1500:]}")
